@@ -2,12 +2,14 @@
   C10, resource clause, area toast — how large the result of the decompressors and of ReassembleTOAST can get
   (helper lemmas for Props/C10/Toast.lean).  For ARBITRARY bytes (no well-formedness):
 
-    copy loop          never grows the result beyond max(len(result), rawSize)
-    decompressPGLZ     result ≤ rawSize
+    copy loop          never grows the result beyond max(len(result), rawSize), appends at most n bytes
+    decompressPGLZ     result ≤ rawSize;  result ≤ 91 · len(stream)   (273 bytes per 3-byte tag: the format's ratio)
     decompressLZ4      result ≤ rawSize + len(stream)      (literals are appended without looking at rawSize)
                        result ≤ 255 · len(stream)          (the ratio the LZ4 block format can reach)
-    ReassembleTOAST    result ≤ (va_rawsize − 4) + len(concatenated chunks), given that the zlib fallback reads at most
-                       rawSize bytes (`ZlibBounded`, io.LimitReader's contract; fix toast/20)
+    ReassembleTOAST    result ≤ 255 · len(concatenated chunks) for EVERY pointer, and ≤ (va_rawsize − 4) + len(chunks),
+                       given that the zlib fallback honours the limit it is given (`ZlibBounded`, io.LimitReader's
+                       contract; the limit is min(va_rawsize − 4, 255 · len) since fixes toast/20 + /22)
+    fuel / budget      the iteration budgets of the two loops are never what ends them (`decompressB_eq`, `loopB_eq`)
 -/
 import PgVerif.Proofs.ToastTotal
 namespace PgVerif.Proofs.ToastSize
@@ -31,6 +33,30 @@ theorem copyLoopM_len (s o raw : Nat) : ∀ (n i : Nat) (out r : Bytes), copyLoo
           rw [hb] at h
           simp only [ok_bind] at h
           have := copyLoopM_len s o raw n (i + 1) (out ++ [b]) r h
+          simp only [List.length_append, List.length_singleton] at this
+          omega
+    · rw [if_neg hc] at h
+      simp only [pure_eq_ok, Except.ok.injEq] at h; subst h; omega
+
+open PgVerif.Model.Pglz in
+/-- the copy loop appends at most `n` bytes -/
+theorem copyLoopM_grow (s o raw : Nat) : ∀ (n i : Nat) (out r : Bytes), copyLoopM s o raw n i out = .ok r →
+    r.length ≤ out.length + n
+  | 0, _, out, r, h => by
+    simp only [copyLoopM, pure_eq_ok, Except.ok.injEq] at h; subst h; omega
+  | n+1, i, out, r, h => by
+    simp only [copyLoopM] at h
+    by_cases hc : out.length < raw
+    · rw [if_pos hc] at h
+      by_cases ho : o = 0
+      · rw [if_pos ho] at h; cases h
+      · rw [if_neg ho] at h
+        cases hb : idx out (s + i % o) with
+        | error e => rw [hb] at h; cases h
+        | ok b =>
+          rw [hb] at h
+          simp only [ok_bind] at h
+          have := copyLoopM_grow s o raw n (i + 1) (out ++ [b]) r h
           simp only [List.length_append, List.length_singleton] at this
           omega
     · rw [if_neg hc] at h
@@ -141,31 +167,120 @@ theorem decompressPGLZ_len (data : Bytes) (raw : Nat) (d : Bytes) (h : Pglz.deco
       have := decompress_len raw _ data [] r hd
       simpa using this
 
-/-! ### LZ4 -/
+theorem decLen_le (b0 : UInt8) : Pglz.decLen b0 ≤ 18 := by
+  unfold Pglz.decLen
+  have : b0.toNat &&& 0x0F ≤ 15 := Nat.and_le_right
+  omega
 
 open PgVerif.Model.Pglz in
-/-- the copy loop appends at most `n` bytes -/
-theorem copyLoopM_grow (s o raw : Nat) : ∀ (n i : Nat) (out r : Bytes), copyLoopM s o raw n i out = .ok r →
-    r.length ≤ out.length + n
-  | 0, _, out, r, h => by
-    simp only [copyLoopM, pure_eq_ok, Except.ok.injEq] at h; subst h; omega
-  | n+1, i, out, r, h => by
-    simp only [copyLoopM] at h
-    by_cases hc : out.length < raw
+/-- the inner loop of decompressPGLZ in terms of the INPUT: every item pays for what it produces at no more than 91 output
+bytes per stream byte (a 3-byte tag yields at most 18 + 255 = 273 bytes, a 2-byte tag at most 17, a literal 1) -/
+theorem items_ratio (raw : Nat) : ∀ (n ctrl bit : Nat) (data out d' o' : Bytes),
+    items raw n ctrl bit data out = .ok (d', o') → o'.length + 91 * d'.length ≤ out.length + 91 * data.length
+  | 0, _, _, data, out, d', o', h => by
+    simp only [items, pure_eq_ok, Except.ok.injEq, Prod.mk.injEq] at h
+    obtain ⟨h1, h2⟩ := h; subst h1; subst h2; first | omega | (simp <;> omega)
+  | n+1, ctrl, bit, data, out, d', o', h => by
+    simp only [items] at h
+    by_cases hc : data = [] ∨ ¬ out.length < raw
     · rw [if_pos hc] at h
-      by_cases ho : o = 0
-      · rw [if_pos ho] at h; cases h
-      · rw [if_neg ho] at h
-        cases hb : idx out (s + i % o) with
-        | error e => rw [hb] at h; cases h
-        | ok b =>
-          rw [hb] at h
-          simp only [ok_bind] at h
-          have := copyLoopM_grow s o raw n (i + 1) (out ++ [b]) r h
-          simp only [List.length_append, List.length_singleton] at this
-          omega
+      simp only [pure_eq_ok, Except.ok.injEq, Prod.mk.injEq] at h
+      obtain ⟨h1, h2⟩ := h; subst h1; subst h2; first | omega | (simp <;> omega)
     · rw [if_neg hc] at h
+      by_cases ht : ctrl.testBit bit = true
+      · rw [if_pos ht] at h
+        rcases data with _ | ⟨b0, _ | ⟨b1, rest⟩⟩
+        · simp only [pure_eq_ok, Except.ok.injEq, Prod.mk.injEq] at h
+          obtain ⟨h1, h2⟩ := h; subst h1; subst h2; first | omega | (simp <;> omega)
+        · simp only [pure_eq_ok, Except.ok.injEq, Prod.mk.injEq] at h
+          obtain ⟨h1, h2⟩ := h; subst h1; subst h2; first | omega | (simp <;> omega)
+        · simp only [] at h
+          have hdl := decLen_le b0
+          by_cases h18 : decLen b0 = 18
+          · rw [if_pos h18] at h
+            rcases rest with _ | ⟨b2, r2⟩
+            · simp only [pure_eq_ok, Except.ok.injEq, Prod.mk.injEq] at h
+              obtain ⟨h1, h2⟩ := h; subst h1; subst h2; first | omega | (simp <;> omega)
+            · simp only [] at h
+              have hb2 : b2.toNat < 256 := b2.toNat_lt
+              by_cases hoff : decOff b0 b1 = 0 ∨ decOff b0 b1 > out.length
+              · rw [if_pos hoff] at h
+                have := items_ratio raw n ctrl (bit + 1) r2 out d' o' h
+                simp only [List.length_cons] at this ⊢; omega
+              · rw [if_neg hoff] at h
+                cases hcp : copyLoopM (out.length - decOff b0 b1) (decOff b0 b1) raw (decLen b0 + b2.toNat) 0 out with
+                | error e => rw [hcp] at h; cases h
+                | ok out2 =>
+                  rw [hcp] at h
+                  simp only [ok_bind] at h
+                  have h1 := copyLoopM_grow _ _ _ _ _ _ _ hcp
+                  have := items_ratio raw n ctrl (bit + 1) r2 out2 d' o' h
+                  simp only [List.length_cons] at this ⊢; omega
+          · rw [if_neg h18] at h
+            by_cases hoff : decOff b0 b1 = 0 ∨ decOff b0 b1 > out.length
+            · rw [if_pos hoff] at h
+              have := items_ratio raw n ctrl (bit + 1) rest out d' o' h
+              simp only [List.length_cons] at this ⊢; omega
+            · rw [if_neg hoff] at h
+              cases hcp : copyLoopM (out.length - decOff b0 b1) (decOff b0 b1) raw (decLen b0) 0 out with
+              | error e => rw [hcp] at h; cases h
+              | ok out2 =>
+                rw [hcp] at h
+                simp only [ok_bind] at h
+                have h1 := copyLoopM_grow _ _ _ _ _ _ _ hcp
+                have := items_ratio raw n ctrl (bit + 1) rest out2 d' o' h
+                simp only [List.length_cons] at this ⊢; omega
+      · rw [if_neg ht] at h
+        rcases data with _ | ⟨b, rest⟩
+        · simp only [pure_eq_ok, Except.ok.injEq, Prod.mk.injEq] at h
+          obtain ⟨h1, h2⟩ := h; subst h1; subst h2; first | omega | (simp <;> omega)
+        · simp only [] at h
+          have := items_ratio raw n ctrl (bit + 1) rest (out ++ [b]) d' o' h
+          simp only [List.length_append, List.length_cons, List.length_nil] at this ⊢; omega
+
+open PgVerif.Model.Pglz in
+theorem decompress_ratio (raw : Nat) : ∀ (f : Nat) (data out r : Bytes), decompress raw f data out = .ok r →
+    r.length ≤ out.length + 91 * data.length
+  | 0, _, out, r, h => by
+    simp only [decompress, pure_eq_ok, Except.ok.injEq] at h; subst h; omega
+  | f+1, data, out, r, h => by
+    simp only [decompress] at h
+    by_cases hc : data = [] ∨ ¬ out.length < raw
+    · rw [if_pos hc] at h
       simp only [pure_eq_ok, Except.ok.injEq] at h; subst h; omega
+    · rw [if_neg hc] at h
+      rcases data with _ | ⟨ctrl, rest⟩
+      · simp only [pure_eq_ok, Except.ok.injEq] at h; subst h; omega
+      · simp only [] at h
+        cases hi : items raw 8 ctrl.toNat 0 rest out with
+        | error e => rw [hi] at h; cases h
+        | ok p =>
+          obtain ⟨d', o'⟩ := p
+          rw [hi] at h
+          simp only [ok_bind] at h
+          have h1 := items_ratio raw 8 ctrl.toNat 0 rest out d' o' hi
+          have := decompress_ratio raw f d' o' r h
+          simp only [List.length_cons]
+          omega
+
+/-- decompressPGLZ never returns more than 91 bytes per stream byte, whatever the stream and whatever raw size the pointer
+claims: a bound in the INPUT size (273 bytes is the most a 3-byte tag produces) -/
+theorem decompressPGLZ_ratio (data : Bytes) (raw : Nat) (d : Bytes) (h : Pglz.decompressPGLZ data raw = .ok (some d)) :
+    d.length ≤ 91 * data.length := by
+  unfold Pglz.decompressPGLZ at h
+  by_cases h4 : data.length < 4
+  · rw [if_pos h4] at h; cases h
+  · rw [if_neg h4] at h
+    cases hd : Pglz.decompress raw (data.length + 1) data [] with
+    | error e => rw [hd] at h; cases h
+    | ok r =>
+      rw [hd] at h
+      simp only [ok_bind, pure_eq_ok, Except.ok.injEq, Option.some.injEq] at h
+      subst h
+      have := decompress_ratio raw _ data [] r hd
+      simpa using this
+
+/-! ### LZ4 -/
 
 open PgVerif.Model.Lz4 in
 /-- a length extension adds at most 255 per byte it consumes, and never lengthens the input -/
@@ -258,16 +373,18 @@ theorem decompressLZ4_len (data : Bytes) (raw : Nat) (d : Bytes) (h : Lz4.decomp
 
 /-! ### ReassembleTOAST -/
 
-/-- the decompression branch: never more than (va_rawsize − 4) + len(data) bytes, given a bounded zlib fallback -/
+/-- the decompression branch: never more than (va_rawsize − 4) + len(data) bytes, and — whatever raw size the pointer
+claims — never more than 255 bytes per stored byte, given a zlib fallback that honours its limit -/
 theorem decompressStored_len (zlib : Bytes → Nat → Option Bytes) (hz : ZlibBounded zlib) (p : Ptr) (data r : Bytes)
-    (h4 : 4 ≤ data.length) (h : decompressStored zlib p data = .ok r) : r.length ≤ (p.rawSize - 4) + data.length := by
+    (h4 : 4 ≤ data.length) (h : decompressStored zlib p data = .ok r) :
+    r.length ≤ (p.rawSize - 4) + data.length ∧ r.length ≤ 255 * data.length := by
   unfold decompressStored at h
   rw [sliceFrom_ok _ _ h4] at h
   simp only [ok_bind] at h
-  have hfall : ∀ r : Bytes, (match zlib data (p.rawSize - 4) with | some z => (pure z : M Bytes) | none => pure data) = .ok r →
-      r.length ≤ (p.rawSize - 4) + data.length := by
+  have hfall : ∀ r : Bytes, (match zlib data (min (p.rawSize - 4) (255 * data.length)) with | some z => (pure z : M Bytes) | none => pure data) = .ok r →
+      r.length ≤ (p.rawSize - 4) + data.length ∧ r.length ≤ 255 * data.length := by
     intro r hr
-    cases hzl : zlib data (p.rawSize - 4) with
+    cases hzl : zlib data (min (p.rawSize - 4) (255 * data.length)) with
     | some z =>
       rw [hzl] at hr
       simp only [pure_eq_ok, Except.ok.injEq] at hr; subst hr
@@ -280,13 +397,13 @@ theorem decompressStored_len (zlib : Bytes → Nat → Option Bytes) (hz : ZlibB
         match viaPglz with
         | some d =>
           if d.length > 0 then (pure d : M Bytes)
-          else match zlib data (p.rawSize - 4) with
+          else match zlib data (min (p.rawSize - 4) (255 * data.length)) with
             | some z => pure z
             | none => pure data
         | none =>
-          match zlib data (p.rawSize - 4) with
+          match zlib data (min (p.rawSize - 4) (255 * data.length)) with
           | some z => pure z
-          | none => pure data) = .ok r → r.length ≤ (p.rawSize - 4) + data.length := by
+          | none => pure data) = .ok r → r.length ≤ (p.rawSize - 4) + data.length ∧ r.length ≤ 255 * data.length := by
     intro r hr
     cases hb : Pglz.decompressPGLZ (data.drop 4) (p.rawSize - 4) with
     | error e => rw [hb] at hr; cases hr
@@ -299,7 +416,9 @@ theorem decompressStored_len (zlib : Bytes → Nat → Option Bytes) (hz : ZlibB
         by_cases hd : d.length > 0
         · rw [if_pos hd] at hr
           simp only [pure_eq_ok, Except.ok.injEq] at hr; subst hr
-          have := decompressPGLZ_len _ _ _ hb; omega
+          have := decompressPGLZ_len _ _ _ hb
+          have h91 := decompressPGLZ_ratio _ _ _ hb
+          simp only [List.length_drop] at h91; omega
         · rw [if_neg hd] at hr; exact hfall r hr
       | none => exact hfall r hr
   by_cases hm : (p.method == 1) = true
@@ -312,7 +431,7 @@ theorem decompressStored_len (zlib : Bytes → Nat → Option Bytes) (hz : ZlibB
       cases a with
       | some d =>
         simp only [pure_eq_ok, Except.ok.injEq] at h; subst h
-        have := (decompressLZ4_len _ _ _ ha).1
+        have := decompressLZ4_len _ _ _ ha
         simp only [List.length_drop] at this; omega
       | none => exact hpg r h
   · rw [if_neg hm] at h
@@ -331,10 +450,12 @@ theorem flatMap_length_perm {α} (f : α → Bytes) {l₁ l₂ : List α} (h : l
 def chunkBytes (chunks : List Chunk) (valueID : Nat) : Nat := ((chunks.filter (·.id == valueID)).flatMap (·.data)).length
 
 /-- ReassembleTOAST, arbitrary chunks and pointer: the result is never longer than the chunk bytes of the value plus
-(for a compressed pointer) va_rawsize − 4 -/
+(for a compressed pointer) va_rawsize − 4, and never longer than 255 times the chunk bytes of the value (a bound in the
+input alone: va_rawsize is 4 bytes of the pointer the caller hands in) -/
 theorem reassembleTOAST_len (zlib : Bytes → Nat → Option Bytes) (hz : ZlibBounded zlib) (chunks : List Chunk) (valueID : Nat)
     (ptr : Option Ptr) (r : Bytes) (h : reassembleTOAST zlib chunks valueID ptr = .ok (some r)) :
-    r.length ≤ (match ptr with | some p => p.rawSize - 4 | none => 0) + chunkBytes chunks valueID := by
+    r.length ≤ (match ptr with | some p => p.rawSize - 4 | none => 0) + chunkBytes chunks valueID ∧
+    r.length ≤ 255 * chunkBytes chunks valueID := by
   unfold reassembleTOAST at h
   simp only [pure_eq_ok] at h
   have hperm : (List.flatMap (·.data) ((chunks.filter (·.id == valueID)).mergeSort fun a b => decide (a.seq ≤ b.seq))).length
@@ -438,6 +559,83 @@ theorem loop_fuel (raw : Nat) : ∀ (f g : Nat) (data out : Bytes), data.length 
                 have e : (fun o => loop raw f r2.2 o) = (fun o => loop raw g r2.2 o) :=
                   funext fun o => loop_fuel raw f g r2.2 o (by omega) (by omega)
                 exact congrArg (fun k => copyLoopM _ _ raw r2.1 0 (out ++ rr.2.take litLen) >>= k) e
+
+open PgVerif.Model.Pglz in
+/-- the budget is never what ends the pglz loop: with more iterations allowed than the stream has bytes, the model that
+FAULTS on an exhausted budget agrees with the one that returns -/
+theorem decompressB_eq (raw : Nat) : ∀ (f : Nat) (data out : Bytes), data.length < f →
+    decompressB raw f data out = decompress raw f data out
+  | 0, _, _, hf => by omega
+  | f+1, data, out, hf => by
+    simp only [decompressB, decompress]
+    by_cases hc : data = [] ∨ ¬ out.length < raw
+    · rw [if_pos hc, if_pos hc]
+    · rw [if_neg hc, if_neg hc]
+      rcases data with _ | ⟨ctrl, rest⟩
+      · rfl
+      · simp only []
+        cases hi : items raw 8 ctrl.toNat 0 rest out with
+        | error e => rfl
+        | ok p =>
+          simp only [ok_bind]
+          have := (items_len raw 8 ctrl.toNat 0 rest out p.1 p.2 hi).2
+          simp only [List.length_cons] at hf
+          exact decompressB_eq raw f p.1 p.2 (by omega)
+
+open PgVerif.Model.Lz4 PgVerif.Model.Pglz in
+theorem loopB_eq (raw : Nat) : ∀ (f : Nat) (data out : Bytes), data.length < f →
+    loopB raw f data out = loop raw f data out
+  | 0, _, _, hf => by omega
+  | f+1, data, out, hf => by
+    simp only [loopB, loop]
+    by_cases hc : data = [] ∨ ¬ out.length < raw
+    · rw [if_pos hc, if_pos hc]
+    · rw [if_neg hc, if_neg hc]
+      rcases data with _ | ⟨token, d1⟩
+      · rfl
+      · simp only []
+        generalize hr : (if token.toNat >>> 4 = 15 then readExt d1 15 else (token.toNat >>> 4, d1)) = rr
+        have hd2 : rr.2.length ≤ d1.length := by
+          by_cases h15 : token.toNat >>> 4 = 15
+          · rw [if_pos h15] at hr; rw [← hr]; exact (readExt_bound d1 15).1
+          · rw [if_neg h15] at hr; rw [← hr]; exact Nat.le_refl _
+        generalize hl : (if rr.1 > rr.2.length then rr.2.length else rr.1) = litLen
+        have hdr : (rr.2.drop litLen).length ≤ rr.2.length := by simp
+        by_cases hc2 : rr.2.drop litLen = [] ∨ (out ++ rr.2.take litLen).length ≥ raw
+        · rw [if_pos hc2, if_pos hc2]
+        · rw [if_neg hc2, if_neg hc2]
+          rcases hd : rr.2.drop litLen with _ | ⟨o0, _ | ⟨o1, d4⟩⟩
+          · rfl
+          · rfl
+          · simp only []
+            have hd4 : d4.length + 2 ≤ rr.2.length := by rw [hd] at hdr; simpa using hdr
+            by_cases hz : o0.toNat ||| o1.toNat <<< 8 = 0
+            · rw [if_pos hz, if_pos hz]
+            · rw [if_neg hz, if_neg hz]
+              generalize hr2 : (if (token.toNat &&& 0x0F) + 4 = 19 then readExt d4 19 else ((token.toNat &&& 0x0F) + 4, d4)) = r2
+              have hr2b : r2.2.length ≤ d4.length := by
+                by_cases h19 : (token.toNat &&& 0x0F) + 4 = 19
+                · rw [if_pos h19] at hr2; rw [← hr2]; exact (readExt_bound d4 19).1
+                · rw [if_neg h19] at hr2; rw [← hr2]; exact Nat.le_refl _
+              by_cases hoff : o0.toNat ||| o1.toNat <<< 8 > (out ++ rr.2.take litLen).length
+              · rw [if_pos hoff, if_pos hoff]
+              · rw [if_neg hoff, if_neg hoff]
+                simp only [List.length_cons] at hf
+                have e : (fun o => loopB raw f r2.2 o) = (fun o => loop raw f r2.2 o) :=
+                  funext fun o => loopB_eq raw f r2.2 o (by omega)
+                exact congrArg (fun k => copyLoopM _ _ raw r2.1 0 (out ++ rr.2.take litLen) >>= k) e
+
+/-- decompressPGLZ runs its loop to the end: the loop that faults when `len(stream)+1` iterations do not bring the Go loop
+condition to false gives the same answer as the model -/
+theorem decompressPGLZ_strict (data : Bytes) (raw : Nat) (h4 : ¬ data.length < 4) :
+    Pglz.decompressPGLZ data raw = (do let r ← Pglz.decompressB raw (data.length + 1) data []; pure (some r)) := by
+  unfold Pglz.decompressPGLZ
+  rw [if_neg h4, decompressB_eq raw (data.length + 1) data [] (by omega)]
+
+theorem decompressLZ4_strict (data : Bytes) (raw : Nat) (h1 : ¬ data.length < 1) :
+    Lz4.decompressLZ4 data raw = Lz4.loopB raw (data.length + 1) data [] := by
+  unfold Lz4.decompressLZ4
+  rw [if_neg h1, loopB_eq raw (data.length + 1) data [] (by omega)]
 
 /-- decompressPGLZ: any iteration budget above the stream length gives the model's answer — the fuel is never the reason
 the loop stops -/
